@@ -58,3 +58,4 @@ impl ConnectionInfo {
 impl IntoConnectionInfoSpec for ConnectionInfo {
     open spec fn target_spec(self) -> Target { Target::Info(info_to_r(self)) }
 }
+
